@@ -27,6 +27,8 @@ type State struct {
 	open     map[loopKey]*openLoop
 	trace    []string
 	panicVal Val // non-nil while panicking (during deferred calls)
+	fdepth   int // number of forks taken on this path (for sharding)
+	mute     bool
 }
 
 type deferred struct {
@@ -42,10 +44,11 @@ type loopKey struct {
 
 type openLoop struct {
 	variant string
+	snap    *State // state at the head of the current iteration (after havoc + invariant)
 }
 
 func (s *State) clone() *State {
-	n := &State{epoch: s.epoch, allocW: s.allocW, nAlloc: s.nAlloc, panicVal: s.panicVal}
+	n := &State{epoch: s.epoch, allocW: s.allocW, nAlloc: s.nAlloc, panicVal: s.panicVal, fdepth: s.fdepth}
 	n.cellv = make(map[*Cell]Val, len(s.cellv))
 	for k, v := range s.cellv {
 		n.cellv[k] = v
@@ -67,15 +70,15 @@ func (s *State) clone() *State {
 }
 
 type Frame struct {
-	id     int
-	fn     *ssa.Function
-	regs   map[ssa.Value]Val
-	cells  map[*ssa.Alloc]*Cell
-	parent *Frame
-	depth  int
-	loops  *loopInfo
-	fc     *FuncContract // contract whose loop clauses apply to this frame
-	binds  []Val         // closure bindings (FreeVars)
+	id        int
+	fn        *ssa.Function
+	regs      map[ssa.Value]Val
+	cells     map[*ssa.Alloc]*Cell
+	parent    *Frame
+	depth     int
+	loops     *loopInfo
+	fc        *FuncContract // contract whose loop clauses apply to this frame
+	binds     []Val         // closure bindings (FreeVars)
 	inlineTag string
 }
 
@@ -179,6 +182,9 @@ type Exec struct {
 	panicPaths  int
 	curFnName   string
 	epochCtr    int
+	instDone    map[string]int
+	shard       int // this worker's shard id
+	shardBits   int // first shardBits forks are partitioned among 2^shardBits workers
 }
 
 func (x *Exec) note(s string) { x.notes[s] = true }
@@ -437,6 +443,10 @@ func updatePath(cur Val, path []int, v Val) Val {
 	return Struct{Typ: s.Typ, F: nf}
 }
 
+func (x *Exec) loadElemPure(st *State, arr, idx string, elem types.Type) Val {
+	return x.locLoad(st, "E|"+typeKey(elem), []string{arr, idx}, elem)
+}
+
 func (x *Exec) loadElem(st *State, arr, idx string, elem types.Type) Val {
 	v := x.locLoad(st, "E|"+typeKey(elem), []string{arr, idx}, elem)
 	if i, ok := v.(Int); ok {
@@ -547,14 +557,20 @@ func (x *Exec) oblig(name, kind string, props []string, pos token.Pos, text stri
 
 // check proves goal under the current path condition.
 func (x *Exec) check(st *State, o *Oblig, goal string) bool {
+	if !x.owns(st) {
+		return true
+	}
 	o.Instances++
 	if goal == "true" {
 		o.Unsat++
 		o.Engines["trivial"]++
 		return true
 	}
-	res, ms := x.sess.CheckNot(goal)
+	res, ms, model := x.sess.CheckNot(goal, x.inputTerms)
 	o.Ms += ms
+	if os.Getenv("GOVC_DEBUG") != "" && (ms > 300 || res != "unsat") {
+		fmt.Fprintf(os.Stderr, "  [%s] live=%s %dms paths=%d\n", o.Name, res, ms, x.paths)
+	}
 	if res == "unsat" {
 		o.Unsat++
 		o.Engines["z3-new(live)"]++
@@ -566,24 +582,32 @@ func (x *Exec) check(st *State, o *Oblig, goal string) bool {
 		}
 		return true
 	}
-	// standalone race
+	if len(o.Failures) >= 2 {
+		// already failing: do not spend more solver time on further path instances
+		o.Failures = append(o.Failures, &Failure{Status: res})
+		return false
+	}
 	script := x.sess.Dump("(assert (not " + goal + "))")
-	rr := Race(script, x.raceTimeout, x.inputTerms)
-	o.Ms += rr.Ms
-	if rr.Status == "unsat" {
-		o.Unsat++
-		o.Engines[rr.Engine]++
-		return true
+	f := &Failure{Status: res, Trace: append([]string(nil), st.trace...), Script: script}
+	_ = model
+	{
+		// The live (incremental) answer "sat"/"unknown" is only a hint: z3's
+		// incremental mode loses recursive-function unfoldings across pop and
+		// can report spurious models. The standalone race decides.
+		rr := Race(script, x.raceTimeout, x.inputTerms)
+		o.Ms += rr.Ms
+		if rr.Status == "unsat" {
+			o.Unsat++
+			o.Engines[rr.Engine]++
+			return true
+		}
+		f.Status = rr.Status
+		f.Outputs = rr.Outputs
+		if rr.Status == "sat" {
+			f.Model = parseGetValue(rr.Model, x.inputTerms, x.inputNames)
+		}
 	}
-	f := &Failure{Status: rr.Status, Trace: append([]string(nil), st.trace...), Script: script, Outputs: rr.Outputs}
-	if rr.Status == "sat" {
-		f.Model = parseGetValue(rr.Model, x.inputTerms, x.inputNames)
-	}
-	if len(o.Failures) < 3 {
-		o.Failures = append(o.Failures, f)
-	} else {
-		o.Failures = append(o.Failures, &Failure{Status: rr.Status})
-	}
+	o.Failures = append(o.Failures, f)
 	return false
 }
 
@@ -733,6 +757,7 @@ func (x *Exec) loopArrive(st *State, fr *Frame, lp *loop, head *ssa.BasicBlock, 
 			}
 		}
 	}
+	ol.snap = st.clone()
 }
 
 func (x *Exec) propsFor(fr *Frame, c *Clause) []string {
@@ -1043,31 +1068,49 @@ func (x *Exec) fork(st *State, c string, thenK, elseK func(*State)) {
 		}
 		return
 	}
+	// sharding: the first shardBits forks of every path are partitioned
+	takeThen, takeElse := true, true
+	if st.fdepth < x.shardBits {
+		bit := (x.shard >> uint(st.fdepth)) & 1
+		takeThen, takeElse = bit == 0, bit == 1
+	}
+	st.fdepth++
 	st2 := st.clone()
-	x.sess.Push()
-	x.assume(c)
-	feasible := true
-	if x.paths > 64 && x.paths%4 == 0 || x.sess.Depth() > 40 {
-		if x.sess.CheckSat() == "unsat" {
-			feasible = false
+	if takeThen {
+		x.sess.Push()
+		x.assume(c)
+		if !x.pruneCheck() {
+			thenK(st)
 		}
+		x.sess.Pop()
 	}
-	if feasible {
-		thenK(st)
-	}
-	x.sess.Pop()
-	x.sess.Push()
-	x.assume(sNot(c))
-	feasible = true
-	if x.paths > 64 && x.paths%4 == 1 || x.sess.Depth() > 40 {
-		if x.sess.CheckSat() == "unsat" {
-			feasible = false
+	if takeElse {
+		x.sess.Push()
+		x.assume(sNot(c))
+		if !x.pruneCheck() {
+			elseK(st2)
 		}
+		x.sess.Pop()
 	}
-	if feasible {
-		elseK(st2)
+}
+
+// pruneCheck reports whether the current path condition is (quickly shown)
+// unsatisfiable. Only used to cut exploration; never to discharge anything
+// that would otherwise fail (an infeasible path has no obligations).
+func (x *Exec) pruneCheck() bool {
+	if x.paths < 12 {
+		return false
 	}
-	x.sess.Pop()
+	return x.sess.CheckSat() == "unsat"
+}
+
+// owns reports whether this shard is responsible for obligations at the
+// current point of the path (exactly one shard is, for every point).
+func (x *Exec) owns(st *State) bool {
+	if x.shardBits == 0 || st.fdepth >= x.shardBits {
+		return true
+	}
+	return x.shard>>uint(st.fdepth) == 0
 }
 
 func (x *Exec) doAlloc(st *State, fr *Frame, in *ssa.Alloc) {
